@@ -6,7 +6,10 @@ Import ListNotations.
 Local Open Scope Z_scope.
 
 (** what the harness sees of a scan: it raises, or per label the (time, variables, fluxes) rows *)
-Inductive observed := ObsRaise | ObsOk (l : list (label * list (Z * list val * list val))).
+Inductive observed :=
+| ObsRaise                                   (* the scan raises (a row's model cannot be evaluated) *)
+| ObsRefuse                                  (* the entry point refuses the table: duplicate index labels *)
+| ObsOk (l : list (label * list (Z * list val * list val))).
 
 Definition any_crash (l : list (label * out)) : bool :=
   existsb (fun lo => match snd lo with OCrash _ => true | OOk _ => false end) l.
@@ -29,6 +32,7 @@ Definition row_eqb (a b : Z * list val * list val) : bool :=
 Definition obs_eqb (a b : observed) : bool :=
   match a, b with
   | ObsRaise, ObsRaise => true
+  | ObsRefuse, ObsRefuse => true
   | ObsOk x, ObsOk y => list_eqb (fun p q => Z.eqb (fst p) (fst q) && list_eqb row_eqb (snd p) (snd q)) x y
   | _, _ => false
   end.
@@ -38,7 +42,11 @@ Record case := mkCase { k_m : mdl; k_w : wkind; k_md : mode; k_rows : list (labe
 Definition run_case (f : scan_facts) (c : case) : observed :=
   match k_w c with
   | WSteady => canon true (scan_list_c f WSteady (k_md c) (k_m c) (k_rows c))
-  | WTimeCourse tps => canon false (scan_dict_c f (WTimeCourse tps) (k_md c) (k_m c) (k_rows c))
+  | WTimeCourse tps =>
+      match scan_dict_checked_c f (WTimeCourse tps) (k_md c) (k_m c) (k_rows c) with
+      | None => ObsRefuse
+      | Some t => canon false t
+      end
   end.
 
 Definition mismatches (f : scan_facts) (cs : list case) : list nat :=
@@ -50,3 +58,15 @@ Definition axis_len_placeholder (f : scan_facts) (n tpps : nat) : nat :=
   length (placeholder_axis nat (fun a b _ k => a + k)%nat O (sf_protocol_axis f) (seq 1 n) tpps).
 Definition axis_len_success (n tpps : nat) : nat :=
   length (success_axis nat (fun a b _ k => a + k)%nat O (seq 1 n) tpps).
+
+(** time axes of the protocol-time-course worker: [full] = sorted join of step ends and requested points *)
+Fixpoint insert_uniq (x : Z) (l : list Z) : list Z :=
+  match l with
+  | [] => [x]
+  | y :: t => if Z.ltb x y then x :: l else if Z.eqb x y then l else y :: insert_uniq x t
+  end.
+Definition join_sorted (a b : list Z) : list Z := fold_right insert_uniq [] (a ++ b).
+Definition ptc_axes (f : scan_facts) (ends tps : list Z) : list Z * list Z :=
+  let full := join_sorted ends tps in
+  (ptc_success_axis full ends, ptc_placeholder_axis full (sf_ptc_axis f) ends tps).
+Definition zlist_eqb (a b : list Z) : bool := list_eqb Z.eqb a b.
